@@ -6,10 +6,6 @@ Local Open Scope Z_scope.
 
 Definition rank1 (dims : list Z) : bool := match dims with [_] => true | _ => false end.
 
-(* shapes on which the access paths work at all: reads of struct members of rank >= 3 are always rejected *)
-Definition supported (ak : akind) (dims : list Z) : Prop :=
-  match ak, dims with AMember, _ :: _ :: _ :: _ => False | _, _ => True end.
-
 Lemma row_major_1 n i : row_major [n] [i] = i.
 Proof. cbn. lia. Qed.
 
@@ -41,12 +37,12 @@ Proof.
 Qed.
 
 (* every site, every integer index: accepted exactly on the in-range tuples, with the row-major cell *)
-Lemma resolve_inl_iff_l ak m dims idxs k : supported ak dims -> dims_fit dims ->
+Lemma resolve_inl_iff_l ak m dims idxs k : dims_fit dims ->
   (resolve ak m dims (size dims) idxs = inl k <-> in_range dims idxs /\ k = row_major dims idxs).
 Proof.
-  intros Hs Hd.
+  intros Hd.
   destruct dims as [|n [|n2 ds]].
-  - cbn [resolve]. destruct ak, m; apply nd_branch_iff; exact Hd.
+  - cbn [resolve]. apply nd_branch_iff; exact Hd.
   - cbn [resolve].
     destruct idxs as [|i [|i2 is_]]; cbn [in_range]; try (split; [discriminate|tauto]).
     rewrite row_major_1. inversion Hd as [|? ? Hn _]; subst.
@@ -60,17 +56,14 @@ Proof.
     + unfold conv in C. destruct (narrows ak true m); [|discriminate].
       apply index_to_int_none in C. split; [discriminate|]. intros [[G _] _].
       exfalso. apply C. unfold int_range, two31 in *. lia.
-  - destruct ak.
-    + cbn [resolve]. destruct m; apply nd_branch_iff; exact Hd.
-    + destruct ds as [|n3 ds]; [|contradiction Hs].
-      cbn [resolve]. destruct m; apply nd_branch_iff; exact Hd.
+  - cbn [resolve]. apply nd_branch_iff; exact Hd.
 Qed.
 
-Lemma resolve_accepts_iff_l ak m dims idxs : supported ak dims -> dims_fit dims ->
+Lemma resolve_accepts_iff_l ak m dims idxs : dims_fit dims ->
   ((exists k, resolve ak m dims (size dims) idxs = inl k) <-> in_range dims idxs) /\
   (forall k, resolve ak m dims (size dims) idxs = inl k -> k = row_major dims idxs).
 Proof.
-  intros Hs Hd. split.
+  intros Hd. split.
   - split.
     + intros [k H]. apply resolve_inl_iff_l in H; tauto.
     + intros H. exists (row_major dims idxs). apply resolve_inl_iff_l; auto.
@@ -78,34 +71,34 @@ Proof.
 Qed.
 
 (* the flat cell is inside the buffer and distinct in-range tuples get distinct cells *)
-Lemma resolve_lt_size_l ak m dims idxs k : supported ak dims -> dims_fit dims ->
+Lemma resolve_lt_size_l ak m dims idxs k : dims_fit dims ->
   resolve ak m dims (size dims) idxs = inl k -> 0 <= k < size dims.
 Proof.
-  intros Hs Hd H. apply resolve_inl_iff_l in H; auto. destruct H as [Hin ->].
+  intros Hd H. apply resolve_inl_iff_l in H; auto. destruct H as [Hin ->].
   apply row_major_bounds. exact Hin.
 Qed.
 
-Lemma resolve_injective_l ak m dims a b k : supported ak dims -> dims_fit dims ->
+Lemma resolve_injective_l ak m dims a b k : dims_fit dims ->
   resolve ak m dims (size dims) a = inl k -> resolve ak m dims (size dims) b = inl k -> a = b.
 Proof.
-  intros Hs Hd H1 H2.
+  intros Hd H1 H2.
   apply resolve_inl_iff_l in H1; auto. apply resolve_inl_iff_l in H2; auto.
   destruct H1 as [I1 ->], H2 as [I2 E]. eapply row_major_inj; eauto.
 Qed.
 
-Lemma resolve_surjective_l ak m dims k : supported ak dims -> dims_fit dims -> positive_dims dims ->
+Lemma resolve_surjective_l ak m dims k : dims_fit dims -> positive_dims dims ->
   0 <= k < size dims ->
   exists idxs, in_range dims idxs /\ resolve ak m dims (size dims) idxs = inl k.
 Proof.
-  intros Hs Hd Hp Hk. destruct (unflat_spec dims Hp k Hk) as [Hin E].
+  intros Hd Hp Hk. destruct (unflat_spec dims Hp k Hk) as [Hin E].
   exists (unflat dims k). split; [exact Hin|]. apply resolve_inl_iff_l; auto.
 Qed.
 
 (* an index that does not fit an int is rejected at every site (the former truncation) *)
-Lemma resolve_rejects_non_int_l ak m dims idxs : supported ak dims -> dims_fit dims ->
+Lemma resolve_rejects_non_int_l ak m dims idxs : dims_fit dims ->
   ~ Forall int_range idxs -> exists e, resolve ak m dims (size dims) idxs = inr e.
 Proof.
-  intros Hs Hd Hn. destruct (resolve ak m dims (size dims) idxs) as [k|e] eqn:E; [|eauto].
+  intros Hd Hn. destruct (resolve ak m dims (size dims) idxs) as [k|e] eqn:E; [|eauto].
   apply resolve_inl_iff_l in E; auto. destruct E as [Hin _]. exfalso. apply Hn. eapply in_range_fits; eauto.
 Qed.
 
@@ -130,13 +123,11 @@ Lemma resolve_err_class_l ak m dims stor idxs e : List.length idxs = List.length
 Proof.
   intros L.
   destruct dims as [|n [|n2 ds]].
-  - cbn [resolve]. destruct ak, m; intros H; left; eapply nd_branch_err; eauto.
+  - cbn [resolve]. intros H; left; eapply nd_branch_err; eauto.
   - cbn [resolve rank1]. destruct idxs as [|i [|? ?]]; try discriminate L.
     destruct (conv _ i) as [i'|]; [destruct ((_ <? 0) || (n <=? _)); [|discriminate]|];
       destruct ak, m; intros H; injection H as <-; auto.
-  - destruct ak.
-    + cbn [resolve]. destruct m; intros H; left; eapply nd_branch_err; eauto.
-    + destruct ds, m; cbn [resolve]; intros H; left; try (eapply nd_branch_err; eauto; fail); congruence.
+  - cbn [resolve]. intros H; left; eapply nd_branch_err; eauto.
 Qed.
 
 (* ---------- pointer arithmetic on addresses ---------- *)
